@@ -25,6 +25,11 @@ func init() { Registry["C12"] = c12 }
 // or its fields and through a key computed once by the caller; freshness accepts a cache built
 // before the instance literal and a new wrapper literal. Mutants re-tried: rule-level cacheability
 // dropped → R-C12-2; key helper without delimiters → R-C12-3; failureCacheable always true → R-C12-2.
+//
+// Third set of refactorings: the cache field may be declared with an interface (Get / Add) when
+// every value the package stores in it is a golang-lru cache or nil; a key variable declared empty
+// and filled when the cache is on is read like the constant ""; a failure route handed to a helper
+// (cacheFailure(req, methodNotAllowed, flags)) is known per path through the parameter.
 func c12(c *core.Ctx) string {
 	c.Rule("R-C12-1", "no header dependence: no cache put is reachable in a state in which a branch on the header matcher has been taken since function entry (the key does not contain headers)")
 	c.Rule("R-C12-2", "IP dependence re-validated: every IP-filter test passed on a path to a cache put is re-evaluated on the hit path before the cached value is returned (server-level test before the lookup or chain check on hit; no put after a non-nil rule/path filter of an earlier entry was passed; failure routes only when no rule-level filter was consulted)")
@@ -231,6 +236,9 @@ func keyShape(c *core.Ctx, f *flow.Func, ro *muxRoles, method string) ([][2]stri
 	var shape [][2]string
 	var at ast.Node
 	for _, v := range vf.flat(keyExpr) {
+		if v.zero && v.root == nil {
+			continue // `var key string`, left empty for a disabled cache (like the constant "" below)
+		}
 		if v.root != nil || v.expr == nil {
 			return nil, nil
 		}
